@@ -42,6 +42,12 @@ func genBook(t *rapid.T, g *Gen) Book {
 	nB := 1 + uni(t, "book-bidders", 5)
 	// price pool: few prices so that duplicates are frequent
 	nP := 1 + uni(t, "book-prices", 5)
+	large := pct(t, 12, "book-large")
+	if large { // beyond the sizes at which sort implementations switch algorithm (12) and with every account
+		nB = 2 + uni(t, "book-bidders-large", NumAccounts-1)
+		nP = 1 + uni(t, "book-prices-large", 12)
+		g.label("book:large(13-60 bids)")
+	}
 	var pool []*big.Int
 	for i := 0; i < nP; i++ {
 		pool = append(pool, g.drawPriceM(t, fmt.Sprintf("pool-%d", i)))
@@ -71,6 +77,9 @@ func genBook(t *rapid.T, g *Gen) Book {
 		b.Caps = append(b.Caps, c.String())
 	}
 	nBids := 1 + uni(t, "book-nbids", 12)
+	if large {
+		nBids = 13 + uni(t, "book-nbids-large", 48)
+	}
 	for i := 0; i < nBids; i++ {
 		bb := BookBid{Bidder: uni(t, "bb-bidder", nB), Worth: pct(t, 50, "bb-worth")}
 		p := pick(t, "bb-price", pool)
